@@ -552,7 +552,6 @@ Section TextFacts.
     destruct (mtype_eqb (mf_type mf) UNTYPED); cbn [negb]; [reflexivity|apply IH].
   Qed.
 
-  Definition text_decision (fams : list MetricFamily) : outcome := if forallb text_accepts fams then OutOk else OutErr EMsg.
   Theorem text_encode_decision buf fams : text_bounded fams -> text_encode_o show showz buf fams = text_decision fams.
   Proof.
     intros B. unfold text_encode_o, text_decision. rewrite (first_escape_panic_none _ B).
